@@ -145,12 +145,16 @@ class Runner:
             self.done = False
             self.pending = self.coro.send(None)
         elif k == "rstep":
-            if self.coro is None or self.pending is None:
+            if self.coro is None and self.done:
+                # the real get_faultlog() returned before asking for this position of the range it was given:
+                # not a harness fault - the read-through clause (Converged) judges the view it leaves
+                note = "code:ended-early"
+            elif self.coro is None or self.pending is None:
                 note = "no-pending-rq"
             else:
                 idx = int(self.pending.payload[4:6], 16)
                 if idx != a:
-                    note = f"rq-idx={idx}"
+                    note = "code:other-idx"  # answered as asked; judged by the clauses, not by the plan
                 n = self._at(idx)
                 ts = self._last_ts = n or 0
                 ridx = idx if n is not None else 0  # a real controller answers a null entry with idx 00
@@ -160,6 +164,19 @@ class Runner:
                 except StopIteration as stop:
                     self.pending, self.coro, self.done, self.returned = None, None, True, stop.value
         elif k == "rend":
+            if not self.done and self.coro is not None and self.pending is not None:
+                # the real get_faultlog() asks for more than the range it was given: answer until it returns
+                note = "code:ran-late"
+                for _ in range(80):
+                    idx = int(self.pending.payload[4:6], 16)
+                    n = self._at(idx)
+                    ridx = idx if n is not None else 0
+                    fl.handle_msg(Message(mk_pkt(RP, ridx, n)))
+                    try:
+                        self.pending = self.coro.send(mk_pkt(RP, ridx, n))
+                    except StopIteration as stop:
+                        self.pending, self.coro, self.done, self.returned = None, None, True, stop.value
+                        break
             if not self.done:
                 note = "not-done"
             self.done = False
@@ -436,17 +453,29 @@ async def _gateway_history(events, depth: int) -> list[dict]:
             elif k == "rstart":
                 task = asyncio.get_running_loop().create_task(tcs.get_faultlog(start=a, limit=b))
             elif k == "rstep":
-                if not pending:
+                if not pending and task is not None and task.done() and task.exception() is None:
+                    note = "code:ended-early"  # see the stub driver: judged by the read-through clause
+                elif not pending:
                     note = "no-pending-rq"
                 else:
                     rq = pending.pop(0)
                     idx = int(rq.split()[-1][4:6], 16)
                     if idx != a:
-                        note = f"rq-idx={idx}"
+                        note = "code:other-idx"
                     n = at(idx)
                     ts = n or 0
                     t.rx(rp(idx if n is not None else 0, n, gw_id))
             elif k == "rend":
+                if task is not None and not task.done():
+                    for _ in range(80):  # the real get_faultlog() asks for more than its range: answer until it returns
+                        if task.done() or not pending:
+                            break
+                        note = "code:ran-late"
+                        rq = pending.pop(0)
+                        idx = int(rq.split()[-1][4:6], 16)
+                        n = at(idx)
+                        t.rx(rp(idx if n is not None else 0, n, gw_id))
+                        await settle()
                 if task is None or not task.done():
                     note = "not-done"
                 elif task.exception() is not None or task.result() is None:
